@@ -384,9 +384,17 @@ def lru_args(ctx):
     return args, L
 
 
+MODELLED = {'__contains__', '__getitem__', '__iter__', '__len__', '__setitem__'}
+HELPERS_OK = {'__init__', '__repr__', '_insert_item', '_manage_size', '_update_item'}
+
+
 def run(ctx):
-    import time
+    import time, inspect
     res = Result()
+    own = set(k for k, v in vars(_lru_class()).items() if inspect.isfunction(v))
+    extra = sorted(m for m in own - MODELLED - HELPERS_OK if not m.startswith('_') or m.startswith('__'))
+    if extra:
+        res.notes.append('unmodelled own methods of LRUCache (outside the operation alphabet of the model): %s' % ', '.join(extra))
     args, L = lru_args(ctx)
     t0 = time.time()
     for r in pmap('harness.props.c15', 'lru_shard', args):
